@@ -23,10 +23,14 @@
          pattern of the event, >= 1 present column, every present non-NULL value valid for its
          column type and signedness).  Unused images (rd_before of a write, ...) are unconstrained;
          for an update the shorter of the two lists decides the row count (as in the encoder).
-     family_cols ffmt tz jsonp cols            every column type has valid parameters and its cell
-         lemma (Proofs/CellFamilies.v cell_family_ok).  C09_proved_families discharges the cell lemma
-         for every family except DECIMAL and JSON; the theorems become unconditional for those two
-         the moment their cell lemma lands (C11, C14).  The *_proved forms are unconditional now.
+     family_cols ffmt tz efmt jsonp cols       every column type has valid parameters and its cell
+         lemma (Proofs/CellFamilies.v cell_family_ok; efmt is the 'E' formatting oracle of the doubles
+         inside JSON documents, used by Spec.Values.text).  C09_proved_families discharges the cell lemma
+         for every family except DECIMAL and JSON, C09_cell_ok_all for every family (DECIMAL from C11,
+         JSON from C14: there the printer jsonp must be the model of printJSONData over efmt).  The
+         *_proved forms are unconditional for tables without DECIMAL / JSON columns, the *_all forms
+         for all tables (wf_cols: valid type parameters; jsonp_for_cols: no JSON column, or jsonp is
+         Model.Json.print_json efmt).
      colspec = (name, (type, unsigned))        a column as the streamer sees it: name and signedness
          from the table mapper (by ordinal), type from the table map. *)
 From GB Require Import Base.Prelude Model.Header Model.Events Model.Cell Model.Rbr Model.Streamer.
@@ -38,8 +42,8 @@ From GBGen Require Import Consts.
 Open Scope Z_scope.
 
 (* ---- the event ---- *)
-Theorem C09_rows_roundtrip : forall ffmt tz jsonp c v h cols tm r crc,
-  wf_cfg c = true -> family_cols ffmt tz jsonp cols -> wf_rows_def cols r ->
+Theorem C09_rows_roundtrip : forall ffmt tz efmt jsonp c v h cols tm r crc,
+  wf_cfg c = true -> family_cols ffmt tz efmt jsonp cols -> wf_rows_def cols r ->
   tm_types tm = col_codes cols -> tm_meta tm = map (fun p => meta_of (fst p)) cols ->
   h_type h = rows_type c (rd_kind r) ->
   (do ev <- strip_checksum56 (expect_format c v) (enc_ev c h (enc_rows_body c (map fst cols) r) crc);
@@ -78,19 +82,19 @@ Proof. exact read_image_ok. Qed.
 Print Assumptions C09_read_image.
 
 (* ---- one image, column by column (get{Values,Identifies}FromRow) ---- *)
-Theorem C09_image_consumed : forall pc pn ffmt tz jsonp tm ti specs img rest,
-  family_cols ffmt tz jsonp (specs_cols specs) ->
+Theorem C09_image_consumed : forall pc pn ffmt tz efmt jsonp tm ti specs img rest,
+  family_cols ffmt tz efmt jsonp (specs_cols specs) ->
   tm_types tm = map (fun s => code_of (cs_type s)) specs ->
   tm_meta tm = map (fun s => meta_of (cs_type s)) specs ->
   ti_cols ti = map (fun s => (cs_name s, cs_uns s)) specs ->
   wf_image (specs_cols specs) (present_bits img) img = true ->
   image_of ffmt tz jsonp tm ti (expect_bitmap pc (present_bits img)) (expect_bitmap pn (null_bits img))
            (Some (image_cells (map cs_type specs) img ++ rest))
-  = Ok (Some (expect_columns ffmt tz specs img)).
+  = Ok (Some (expect_columns ffmt tz efmt specs img)).
 Proof. exact image_consumed. Qed.
 Print Assumptions C09_image_consumed.
 
-Theorem C09_image_consumed_proved : forall pc pn ffmt tz jsonp tm ti specs img rest,
+Theorem C09_image_consumed_proved : forall pc pn ffmt tz efmt jsonp tm ti specs img rest,
   (forall v, -86400 <= tz v <= 86400) -> proved_cols (specs_cols specs) ->
   tm_types tm = map (fun s => code_of (cs_type s)) specs ->
   tm_meta tm = map (fun s => meta_of (cs_type s)) specs ->
@@ -98,7 +102,7 @@ Theorem C09_image_consumed_proved : forall pc pn ffmt tz jsonp tm ti specs img r
   wf_image (specs_cols specs) (present_bits img) img = true ->
   image_of ffmt tz jsonp tm ti (expect_bitmap pc (present_bits img)) (expect_bitmap pn (null_bits img))
            (Some (image_cells (map cs_type specs) img ++ rest))
-  = Ok (Some (expect_columns ffmt tz specs img)).
+  = Ok (Some (expect_columns ffmt tz efmt specs img)).
 Proof. exact image_consumed_proved. Qed.
 Print Assumptions C09_image_consumed_proved.
 
@@ -110,8 +114,8 @@ Proof. exact image_of_mismatch. Qed.
 Print Assumptions C09_image_mismatch.
 
 (* absent / NULL / value (including the empty value, Some []) are distinguishable and exclusive *)
-Theorem C09_three_way : forall pc pn ffmt tz jsonp tm ti specs img rest,
-  family_cols ffmt tz jsonp (specs_cols specs) ->
+Theorem C09_three_way : forall pc pn ffmt tz efmt jsonp tm ti specs img rest,
+  family_cols ffmt tz efmt jsonp (specs_cols specs) ->
   tm_types tm = map (fun s => code_of (cs_type s)) specs ->
   tm_meta tm = map (fun s => meta_of (cs_type s)) specs ->
   ti_cols ti = map (fun s => (cs_name s, cs_uns s)) specs ->
@@ -143,11 +147,20 @@ Proof. exact length_value_differ_fsp7. Qed.
 Print Assumptions C09_length_value_differ_fsp7.
 
 (* ---- the cell lemma for every family except DECIMAL and JSON ---- *)
-Theorem C09_proved_families : forall ffmt tz jsonp, (forall v, -86400 <= tz v <= 86400) ->
+Theorem C09_proved_families : forall ffmt tz efmt jsonp, (forall v, -86400 <= tz v <= 86400) ->
   forall ty, not_decimal_or_json ty = true ->
-  forall uns v, wf_type ty = true -> wf_value ty uns v = true -> cell_ok ffmt tz jsonp ty uns v.
+  forall uns v, wf_type ty = true -> wf_value ty uns v = true -> cell_ok ffmt tz efmt jsonp ty uns v.
 Proof. exact proved_families. Qed.
 Print Assumptions C09_proved_families.
+
+(* ---- the cell lemma for EVERY column type, DECIMAL (C11) and JSON (C14) included.  jsonp_for efmt jsonp ty:
+        ty is not a JSON column, or jsonp is Model.Json.print_json efmt, the model of printJSONData with the same
+        'E' formatting oracle efmt that Spec.Values.text uses to render the doubles inside a document ---- *)
+Theorem C09_cell_ok_all : forall ffmt tz efmt, (forall v, -86400 <= tz v <= 86400) ->
+  forall jsonp ty uns v, jsonp_for efmt jsonp ty ->
+  wf_type ty = true -> wf_value ty uns v = true -> cell_ok ffmt tz efmt jsonp ty uns v.
+Proof. exact cell_ok_all. Qed.
+Print Assumptions C09_cell_ok_all.
 
 (* ---- bitmaps of any width, with any padding pattern in the unused bits of the last byte ---- *)
 Theorem C09_bitmap_bit : forall pad bits i, (i < length bits)%nat ->
@@ -219,11 +232,13 @@ Definition ex_hdr (t : Z) : hdr := {| h_ts := 1600000000; h_type := t; h_sid := 
 Definition ex_ffmt (b x : Z) : bytes := [49].
 Definition ex_tz (x : Z) : Z := 0.
 Definition ex_jsonp (b : bytes) : res bytes := Err EJson.
+Definition ex_efmt (bits : Z) : bytes := [].
 Definition ex_ti : tinfo := {| ti_name := ([100], [116]); ti_cols := map (fun s => (cs_name s, cs_uns s)) ex_specs |}.
 
-(* all column types except JSON (whose cells are C14): DECIMAL included *)
+(* all column types, DECIMAL and JSON (C14) included: wf_cols only asks for valid type parameters (wf_type).
+   Rows does not decode cells, so no oracle occurs. *)
 Theorem C09_rows_roundtrip_all : forall c v h cols pt t r crc,
-  wf_cfg c = true -> nonjson_cols cols -> wf_rows_def cols r ->
+  wf_cfg c = true -> wf_cols cols -> wf_rows_def cols r ->
   map fst (td_cols t) = map fst cols ->
   h_type h = rows_type c (rd_kind r) ->
   (do ev <- strip_checksum56 (expect_format c v) (enc_ev c h (enc_rows_body c (map fst cols) r) crc);
@@ -231,15 +246,17 @@ Theorem C09_rows_roundtrip_all : forall c v h cols pt t r crc,
 Proof. exact rows_roundtrip_all. Qed.
 Print Assumptions C09_rows_roundtrip_all.
 
-Theorem C09_image_consumed_all : forall pc pn ffmt tz jsonp tm ti specs img rest,
-  (forall v, -86400 <= tz v <= 86400) -> nonjson_cols (specs_cols specs) ->
+(* jsonp_for_cols efmt jsonp cols: no column is a JSON column, or jsonp is the model of printJSONData with the
+   'E' formatting oracle efmt that the expected text (Spec.Values.text) uses for the doubles inside documents *)
+Theorem C09_image_consumed_all : forall pc pn ffmt tz efmt jsonp tm ti specs img rest,
+  (forall v, -86400 <= tz v <= 86400) -> wf_cols (specs_cols specs) -> jsonp_for_cols efmt jsonp (specs_cols specs) ->
   tm_types tm = map (fun s => code_of (cs_type s)) specs ->
   tm_meta tm = map (fun s => meta_of (cs_type s)) specs ->
   ti_cols ti = map (fun s => (cs_name s, cs_uns s)) specs ->
   wf_image (specs_cols specs) (present_bits img) img = true ->
   image_of ffmt tz jsonp tm ti (expect_bitmap pc (present_bits img)) (expect_bitmap pn (null_bits img))
            (Some (image_cells (map cs_type specs) img ++ rest))
-  = Ok (Some (expect_columns ffmt tz specs img)).
+  = Ok (Some (expect_columns ffmt tz efmt specs img)).
 Proof. exact image_consumed_all. Qed.
 Print Assumptions C09_image_consumed_all.
 
@@ -255,8 +272,8 @@ Example C09_update_10_columns :
   image_of ex_ffmt ex_tz ex_jsonp (expect_table_map 0 ex_t) ex_ti
            (expect_bitmap 255 (present_bits ex_a1)) (expect_bitmap 255 (null_bits ex_a1))
            (Some (image_cells (map cs_type ex_specs) ex_a1))
-    = Ok (Some (expect_columns ex_ffmt ex_tz ex_specs ex_a1)) /\
-  map (fun col => (c_empty col, c_data col)) (firstn 5 (expect_columns ex_ffmt ex_tz ex_specs ex_a1))
+    = Ok (Some (expect_columns ex_ffmt ex_tz ex_efmt ex_specs ex_a1)) /\
+  map (fun col => (c_empty col, c_data col)) (firstn 5 (expect_columns ex_ffmt ex_tz ex_efmt ex_specs ex_a1))
     = [(false, Some [55]); (false, Some [104; 105]); (true, None); (false, Some []); (false, None)].
 Proof. repeat match goal with |- _ /\ _ => split end; vm_compute; reflexivity. Qed.
 
@@ -305,11 +322,11 @@ Example C09_padding_bits_set :
   image_of ex_ffmt ex_tz ex_jsonp (expect_table_map 255 ex_t) ex_ti
            (expect_bitmap 255 (present_bits ex_b1)) (expect_bitmap 255 (null_bits ex_b1))
            (Some (image_cells (map cs_type ex_specs) ex_b1))
-    = Ok (Some (expect_columns ex_ffmt ex_tz ex_specs ex_b1)) /\
+    = Ok (Some (expect_columns ex_ffmt ex_tz ex_efmt ex_specs ex_b1)) /\
   image_of ex_ffmt ex_tz ex_jsonp (expect_table_map 0 ex_t) ex_ti
            (expect_bitmap 165 (present_bits ex_b1)) (expect_bitmap 90 (null_bits ex_b1))
            (Some (image_cells (map cs_type ex_specs) ex_b1))
-    = Ok (Some (expect_columns ex_ffmt ex_tz ex_specs ex_b1)).
+    = Ok (Some (expect_columns ex_ffmt ex_tz ex_efmt ex_specs ex_b1)).
 Proof.
   repeat match goal with |- _ /\ _ => split end;
     try (vm_compute; reflexivity); try (vm_compute; discriminate).
@@ -375,3 +392,82 @@ Theorem C09_tie_Rows : forall fuel ev f tm,
 Proof. exact binlogEvent_Rows_equiv. Qed.
 Print Assumptions C09_tie_Rows.
 
+
+(* ---------------------------------------------------------------------------------------------------------------
+   Non-vacuity with a JSON column (C14 at row level): a 3-column table (INT, JSON with a 4-byte length prefix,
+   VARCHAR), a write event of two rows.  The first document is an object holding a nested array (inlined int16, a
+   double, a string), an opaque negative TIME and an inlined literal; the second a large-format array with an
+   opaque DECIMAL.  Everything is evaluated by vm_compute through the model (ev_rows, image_of with the model of
+   printJSONData as JSON printer): the theorems' conclusions hold on it, and the delivered JSON text is shown. *)
+From Coq Require Import String.
+From GB Require Import Base.DecText Model.Json Spec.EncJson.
+Open Scope Z_scope.
+
+Definition exj_efmt (bits : Z) : bytes := str "1E+" ++ digs bits.
+Definition exj_doc1 : jdoc :=
+  JObj false [(str "a", JArr false [JInt16 1; JDouble 99; JStr (str "x")]); (str "t", JTime true 1 0 0 0); (str "n", JNull)].
+Definition exj_doc2 : jdoc := JArr true [JDecimal 5 2 true [0; 1; 2] [3; 4]; JUint32 70000; JObj false []].
+Definition exj_specs : list colspec :=
+  [([105; 100], (TLong, false)); ([100; 111; 99], (TJson 4, false)); ([115], (TVarchar 10 false, false))].
+Definition exj_cols : list (coltype * bool) := specs_cols exj_specs.
+Definition exj_r1 : list cellv := [CVal (VInt 7); CVal (VJson exj_doc1); CVal (VBytes [104])].
+Definition exj_r2 : list cellv := [CNull; CVal (VJson exj_doc2); CVal (VBytes [])].
+Definition exj_rows : rows_def :=
+  {| rd_kind := 0; rd_id := 78; rd_flags := 1; rd_extra := []; rd_before := []; rd_after := [exj_r1; exj_r2] |}.
+Definition exj_t : table_def :=
+  {| td_id := 78; td_flags := 1; td_db := [100]; td_name := [106];
+     td_cols := map (fun p => (fst p, true)) exj_cols; td_optional := [] |}.
+Definition exj_ti : tinfo := {| ti_name := ([100], [106]); ti_cols := map (fun s => (cs_name s, cs_uns s)) exj_specs |}.
+
+Example C09_json_column :
+  forallb (fun p => wf_type (fst p)) exj_cols = true /\
+  map (fun p => not_json (fst p)) exj_cols = [true; false; true] /\
+  forallb (wf_image exj_cols (first_present (rd_after exj_rows) 3)) (rd_after exj_rows) = true /\
+  (* the rows event *)
+  (do ev <- strip_checksum56 (expect_format ex_cfg [])
+              (enc_ev ex_cfg (ex_hdr (rows_type ex_cfg 0)) (enc_rows_body ex_cfg (map fst exj_cols) exj_rows) [9; 9; 9; 9]);
+   ev_rows (expect_format ex_cfg []) (expect_table_map 0 exj_t) ev) = Ok (expect_rows ex_cfg (map fst exj_cols) exj_rows) /\
+  List.length (rs_rows (expect_rows ex_cfg (map fst exj_cols) exj_rows)) = 2%nat /\
+  (* the images, column by column, with the model of printJSONData *)
+  Streamer.image_of ex_ffmt ex_tz (print_json exj_efmt) (expect_table_map 0 exj_t) exj_ti
+           (expect_bitmap 255 (present_bits exj_r1)) (expect_bitmap 255 (null_bits exj_r1))
+           (Some (image_cells (map cs_type exj_specs) exj_r1 ++ [1; 2; 3]))
+    = Ok (Some (expect_columns ex_ffmt ex_tz exj_efmt exj_specs exj_r1)) /\
+  Streamer.image_of ex_ffmt ex_tz (print_json exj_efmt) (expect_table_map 0 exj_t) exj_ti
+           (expect_bitmap 255 (present_bits exj_r2)) (expect_bitmap 255 (null_bits exj_r2))
+           (Some (image_cells (map cs_type exj_specs) exj_r2))
+    = Ok (Some (expect_columns ex_ffmt ex_tz exj_efmt exj_specs exj_r2)) /\
+  (* what is delivered *)
+  map (fun col => (c_type col, c_empty col, c_data col)) (expect_columns ex_ffmt ex_tz exj_efmt exj_specs exj_r1)
+    = [(3, false, Some [55]);
+       (245, false, Some (str "JSON_OBJECT('a',JSON_ARRAY(1,1E+99,'x'),'t',CAST('-01:00:00' AS TIME(6)),'n',null)"));
+       (15, false, Some [104])] /\
+  map (fun col => c_data col) (expect_columns ex_ffmt ex_tz exj_efmt exj_specs exj_r2)
+    = [None; Some (str "JSON_ARRAY(CAST('-12.34' AS DECIMAL(5,2)),70000,JSON_OBJECT())"); Some []] /\
+  (* with a JSON printer that fails, the conversion of the image fails (None = error return): the premise on the
+     printer is used *)
+  Streamer.image_of ex_ffmt ex_tz ex_jsonp (expect_table_map 0 exj_t) exj_ti
+           (expect_bitmap 255 (present_bits exj_r1)) (expect_bitmap 255 (null_bits exj_r1))
+           (Some (image_cells (map cs_type exj_specs) exj_r1)) = Ok None.
+Proof. repeat match goal with |- _ /\ _ => split end; vm_compute; reflexivity. Qed.
+
+(* the hypotheses of C09_rows_roundtrip_all / C09_image_consumed_all hold for it *)
+Example C09_json_column_wf :
+  wf_cols exj_cols /\ jsonp_for_cols exj_efmt (print_json exj_efmt) exj_cols /\ wf_rows_def exj_cols exj_rows.
+Proof.
+  split; [|split].
+  - apply Forall_forall. intros p Hp.
+    assert (F : forallb (fun p => wf_type (fst p)) exj_cols = true) by (vm_compute; reflexivity).
+    rewrite forallb_forall in F. exact (F p Hp).
+  - right. reflexivity.
+  - unfold wf_rows_def.
+    split; [left; reflexivity|].
+    split; [vm_compute; split; congruence|].
+    split; [vm_compute; reflexivity|].
+    split; [vm_compute; congruence|].
+    split; intros H; [exfalso; apply H; reflexivity|].
+    unfold wf_images; apply Forall_forall; intros img Hi.
+    assert (F : forallb (wf_image exj_cols (first_present (rd_after exj_rows) (List.length exj_cols))) (rd_after exj_rows) = true)
+      by (vm_compute; reflexivity).
+    rewrite forallb_forall in F. exact (F img Hi).
+Qed.
